@@ -28,6 +28,7 @@ const (
 	KCallback   = 5 // callback fault (0 = none)
 	KClock      = 6 // reserved
 	KLockCommit = 7 // a waiting writer announces itself (0 = not yet)
+	KDirOrder   = 8 // order in which an opened directory lists its entries (0 = ascending by name)
 )
 
 // Decision is one recorded nondeterministic choice.
@@ -89,6 +90,7 @@ func Reset(seed uint64) {
 	evHash, evCount, evSeq = 1469598103934665603, 0, 0
 	ticks, softHit = 0, false
 	softBudget, hardBudget = ^uint64(0), ^uint64(0)
+	gcEvery, nextGC = 0, ^uint64(0)
 	runtimeErrs, runtimeErrSite, runtimeErrFirst, runtimeErrOrigin = 0, 0, "", ""
 	resetMapStats()
 	resetPoolStats()
@@ -217,13 +219,39 @@ func EventHash() (uint64, uint64) { return evHash, evCount }
 //go:norace
 func Tick() {
 	ticks++
-	if ticks >= softBudget {
+	if ticks >= softBudget || ticks >= nextGC {
 		tickSlow()
 	}
 }
 
+// SetGCEvery makes the current run collect garbage every n steps (0 = leave it to the runtime):
+// memory that the code under test has dropped is reused early and often, so a result that depends
+// on the identity of addresses (a cache keyed by a pointer value) shows up as a difference.
+//
+//go:norace
+func SetGCEvery(n uint64) {
+	gcEvery = n
+	nextGC = ^uint64(0)
+	if n != 0 {
+		nextGC = ticks + n
+	}
+}
+
+// ForcedGCs counts the collections forced so far in this process (evidence).
+var ForcedGCs int
+
+var gcEvery, nextGC uint64 = 0, ^uint64(0)
+
 //go:norace
 func tickSlow() {
+	if ticks >= nextGC {
+		nextGC = ticks + gcEvery
+		ForcedGCs++
+		runtime.GC()
+		if ticks < softBudget {
+			return
+		}
+	}
 	softHit = true
 	if ticks >= hardBudget {
 		hardBudget = ^uint64(0) // fire once
